@@ -151,6 +151,11 @@ type Exec struct {
 	facts        map[int]bool
 	probeOpaque  map[string]bool
 	forceInline  map[string]bool
+	driver       bool // driver-level target: fail-stop obligations, tolerant of unknown values
+	assumePre    bool // preconditions of callee contracts are assumed (reported), not proved
+	sends        int
+	exitNonZero  bool // every os.Exit reached must carry a non-zero status
+	curCall      ssa.Instruction
 	pcSubstFor   *Term
 	pcSubstMap   map[int]*Term
 	eqConst      map[int]*Term
@@ -600,6 +605,11 @@ func (x *Exec) get(v ssa.Value) Value {
 		return UnknownV{nil, "builtin value"}
 	}
 	if r, ok := x.st.regs[v]; ok {
+		if u, isU := r.(UnknownV); isU && x.driver {
+			nv := x.tolerantValue(u, v.Type(), v.Name())
+			x.st.regs[v] = nv
+			return nv
+		}
 		if sv, isS := r.(SliceV); isS && !(sv.Len.IsConst() && sv.Nil.IsConst()) {
 			curExec = x
 			return asSlice(sv) // header simplified under the path condition
@@ -788,6 +798,17 @@ func (x *Exec) step(fr *Frame, ins ssa.Instruction) {
 			st.regs[i] = x.extendPtr(bv, PathElem{Field: -1, Idx: idx})
 		case *ChoiceV:
 			st.regs[i] = x.indexAddrChoice(bv, idx, i, fr)
+		case UnknownV:
+			if !x.driver {
+				unsup("IndexAddr on %T", base)
+			}
+			// driver mode: an element of a value the executor does not track is an arbitrary value of its type
+			et := i.Type().(*types.Pointer).Elem()
+			o := x.newObject(et, "unk-elem")
+			n := len(x.inputs)
+			st.heap.m[o] = x.freshValue("unk-elem", et, 3)
+			x.inputs = x.inputs[:n]
+			st.regs[i] = PtrV{Obj: o, Nil: False()}
 		default:
 			unsup("IndexAddr on %T", base)
 		}
@@ -1756,6 +1777,7 @@ func (x *Exec) callFunction(fn *ssa.Function, args []Value, bind []Value, ghost 
 }
 
 func (x *Exec) call(fr *Frame, ins ssa.Instruction, cc *ssa.CallCommon) Value {
+	x.curCall = ins
 	args := make([]Value, 0, len(cc.Args)+1)
 	if cc.IsInvoke() {
 		recv := x.get(cc.Value)
@@ -1820,7 +1842,15 @@ func (x *Exec) callStatic(fr *Frame, fn *ssa.Function, args []Value, bind []Valu
 	}
 	if !ghost && !forced {
 		if sp := x.pickBehavior(fn, name, args); sp != nil && sp.HasContract() && !sp.Inline && x.P.harnessOf[sp.Key()] != nil {
-			return x.useContract(fr, fn, sp, args, pos)
+			used := callResultUsed(x.curCall)
+			r := x.useContract(fr, fn, sp, args, pos)
+			if x.driver && name == "free5gclib/ngap.Decoder" && used && x.st != nil {
+				// a reply the procedure consumes that is not a decodable NGAP message is a fault
+				if tv, ok := r.(TupleV); ok && len(tv.E) == 2 {
+					x.raiseFault(Not(ptrNil(tv.E[1])))
+				}
+			}
+			return r
 		}
 	}
 	if fn.Blocks == nil {
